@@ -235,7 +235,7 @@ def run_stage_j(R, binary):
         scenarios=cases, applied_conf_changes=g("d:JF/"), proposals=g("d:JG/"), advances=g("d:JA/"), campaigns=g("d:JH/"), probes=g("d:JP/"),
         note="JF: RSJ.applyCC (the fold step of RSJ.cfgAt) on every node that applies; JG: RSJ.gateSeq with joint = len(Voters[1]) > 0 and per entry only what the gate "
              "looks at (conf change or not, len(Changes) == 0); JA: Advance's direct append; JH: RSJ.campaignGate; the safety theorem RSJ.C15_joint_holds is about the model "
-             "whose configuration part is compared here - whole joint schedules are not replayed on an executable handler (RHC.handleC is the single-change handler)")
+             "whose configuration part is compared here; whole joint schedules are replayed on the executable joint handler RHJ.handleJ by the suite member-joint-lockstep")
     for k, m in enumerate((mism + unk)[:3]):
         R.violation("raftsim-stageJ-%d" % k, dict(
             kind="tie-broken", engine="raftsim", suite="joint-through-rawnode", summary=m[:400], schedule=None, trace=[m.split(" :: ", 1)[-1]],
@@ -253,7 +253,7 @@ def run_member_joint(R, binary):
     restarts from snapshots, compaction, campaigns by anybody; membership proposals are ConfChangeV2 of every shape next to the legacy ConfChange, a quarter of them
     batched into one proposal message) replayed event by event on the executable joint handler RHJ.handleJ (Raft/RHJ.lean; RHJ.runJ_safe)"""
     if R.tier == "quick":
-        per_profile, events, workers = 10, 250, 1
+        per_profile, events, workers = 8, 250, 1
     else:
         per_profile, events, workers = 400, 600, max(2, min(10, (os.cpu_count() or 4) - 2))
     lines, harness_s, rc_all = [], 0.0, 0
@@ -309,19 +309,20 @@ def run_member_joint(R, binary):
     ctl, damaged = [], 0
     for start, sched in split_schedules(lines):
         es = [i for i, l in enumerate(sched) if l.startswith("E ")]
-        if not sched or not sched[0].startswith("R ") or len(es) < 6 or damaged >= 12:
+        if not sched or not sched[0].startswith("R ") or len(es) < 6 or damaged >= 8:
             continue
         sched = list(sched)
         cand = [i for i in es if sched[i].split(" ")[-4] != "-"]
         if cand:
-            f = sched[cand[len(cand) // 2]].split(" ")
+            at = cand[len(cand) // 2]
+            f = sched[at].split(" ")
             f[-4] = "-"  # the node is said to have left the joint configuration
-            sched[cand[len(cand) // 2]] = " ".join(f)
         else:
-            f = sched[es[len(es) // 2]].split(" ")
+            at = es[len(es) // 2]
+            f = sched[at].split(" ")
             f[4] = str(int(f[4]) + 7) if f[4].isdigit() else "7"
-            sched[es[len(es) // 2]] = " ".join(f)
-        ctl += sched
+        sched[at] = " ".join(f)
+        ctl += sched[:at + 1]  # the schedule up to the damaged event
         damaged += 1
     if damaged:
         dc = run_raft_driver(ctl)
